@@ -319,6 +319,9 @@ func (s *state) walk(node ast.Node) {
 			s.val = s.eval(node.Arg3)
 		}
 
+	case *ast.SoyDocNode:
+		// a /** */ comment in a template body contributes nothing
+
 	default:
 		s.errorf("unknown node: %T", node)
 	}
